@@ -57,6 +57,7 @@ type emission struct {
 	digest string
 	dir    string
 	client int
+	route  string
 }
 
 // recorder of one direction of one connection
@@ -327,6 +328,11 @@ func runCell(run *vk.Run, c cell) {
 	}
 
 	type emitFn func(event string, v ...any)
+	// route = which public entry point carries the emission; all of them are "an event emitted on a connected socket"
+	type route struct {
+		name string
+		emit emitFn
+	}
 	var wg sync.WaitGroup
 	var uidSeq atomic.Int64
 	var world atomic.Pointer[e2e.World]
@@ -347,7 +353,7 @@ func runCell(run *vk.Run, c cell) {
 		seeds[i] = r.Int63()
 	}
 	var started sync.Map
-	startEmitters := func(ci int, dir string, emit emitFn) {
+	startEmitters := func(ci int, dir string, routes ...route) {
 		if _, dup := started.LoadOrStore(fmt.Sprintf("%d/%s", ci, dir), true); dup {
 			return // reconnect in a faulty run: emit once only
 		}
@@ -375,12 +381,17 @@ func runCell(run *vk.Run, c cell) {
 					}
 					v := b.shape.Make(er, size)
 					uid := int(uidSeq.Add(1))
-					em := &emission{uid: uid, event: b.event, shape: b.shape.Name, size: size, digest: refcodec.Digest(gen.CanonOf(v)), dir: dir, client: ci}
+					rt := routes[0]
+					if len(routes) > 1 && c.Label == "mixed-shapes" {
+						rt = routes[er.Intn(len(routes))]
+					}
+					em := &emission{uid: uid, event: b.event, shape: b.shape.Name, size: size, digest: refcodec.Digest(gen.CanonOf(v)), dir: dir, client: ci, route: rt.name}
 					rec.mu.Lock()
 					rec.emitted[uid] = em
 					rec.mu.Unlock()
 					rec.pending.Add(1)
-					emit(b.event, uid, v)
+					rt.emit(b.event, uid, v)
+					run.Count("route/"+dir+"/"+rt.name, 1)
 					run.Eval(1)
 				}
 			}(g)
@@ -397,18 +408,25 @@ func runCell(run *vk.Run, c cell) {
 			// handlers are in place: tell the client it may start, and start our own emitters
 			ss.Emit("ready", 1)
 			if hasDir("s2c") {
-				startEmitters(idx, "s2c", ss.Emit)
+				own := sio.Room(ss.ID())
+				startEmitters(idx, "s2c", route{"Emit", ss.Emit},
+					route{"Timeout.Emit", ss.Timeout(time.Minute).Emit},
+					// through the adapter: a broadcast to the socket's own room (with recovery on, the packet
+					// is logged and carries an offset that the client must strip again)
+					route{"Namespace.To(own).Emit", func(ev string, v ...any) { ss.Namespace().To(own).Emit(ev, v...) }},
+					route{"Namespace.Compress.To(own).Emit", func(ev string, v ...any) { ss.Namespace().Compress(true).To(own).Emit(ev, v...) }},
+					route{"Namespace.Local.In(own).Emit", func(ev string, v ...any) { ss.Namespace().Local().In(own).Emit(ev, v...) }})
 			}
 		},
 		OnClientSocket: func(idx int, cs sio.ClientSocket) {
 			register(cs, recs[idx][1], "s2c", idx)
 			cs.OnEvent("fence", func(ack func()) { ack() })
 			if c.Early && hasDir("c2s") {
-				startEmitters(idx, "c2s", cs.Emit) // before Connect()
+				startEmitters(idx, "c2s", route{"Emit", cs.Emit}) // before Connect()
 			}
 			cs.OnEvent("ready", func(int) {
 				if hasDir("c2s") {
-					startEmitters(idx, "c2s", cs.Emit)
+					startEmitters(idx, "c2s", route{"Emit", cs.Emit}, route{"Timeout.Emit", cs.Timeout(time.Minute).Emit})
 				}
 			})
 		},
@@ -486,13 +504,13 @@ func runCell(run *vk.Run, c cell) {
 			sort.Slice(lost, func(i, j int) bool { return lost[i].uid < lost[j].uid })
 			byClass := map[string][]*emission{}
 			for _, em := range lost {
-				k := em.shape + "/" + sizeClass(em.size)
+				k := em.shape + "/" + sizeClass(em.size) + " via " + em.route
 				byClass[k] = append(byClass[k], em)
 			}
 			for k, ems := range byClass {
 				em := ems[0]
 				lastKind := gen.ShapeByName(em.shape).Type.Kind().String()
-				report("lost", map[string]any{"dir": dir, "shape": em.shape, "size_class": sizeClass(em.size), "last_param_kind": lastKind, "client_kind": "go"},
+				report("lost", map[string]any{"dir": dir, "shape": em.shape, "size_class": sizeClass(em.size), "last_param_kind": lastKind, "client_kind": "go", "route": em.route},
 					fmt.Sprintf("%d event(s) of class %s never reached the peer's handler (first: uid %d event %q size %d; fence ok=%v, complete=%v, waited 30 s after the fence)", len(ems), k, em.uid, em.event, em.size, fenceOK, complete),
 					map[string]any{"lost_uids": uids(ems), "event": em.event, "size": em.size})
 			}
